@@ -731,6 +731,19 @@ impl World {
             w.wake_reader();
         }
     }
+    /// a transient read error: the next poll_read answers Err(kind) once; what is staged stays readable
+    pub fn read_error_once(&mut self, kind: std::io::ErrorKind) {
+        let mut w = self.wire.borrow_mut();
+        w.read_err_once = Some(kind);
+        if !w.gate_closed {
+            w.wake_reader();
+        }
+    }
+    pub fn set_err_kinds(&mut self, read: std::io::ErrorKind, write: std::io::ErrorKind) {
+        let mut w = self.wire.borrow_mut();
+        w.read_err_kind = read;
+        w.write_err_kind = write;
+    }
     pub fn read_error(&mut self) {
         let mut w = self.wire.borrow_mut();
         w.read_err = true;
